@@ -538,13 +538,13 @@ func (s *Sim) SchedHash() uint64 { return s.schedHash }
 // Run schedules until no goroutine is enabled, the step cap is hit or a
 // goroutine panics. Scheduler goroutine only.
 func (s *Sim) Run() Outcome {
-	// Library timers are served while they are short-lived work in progress: at
-	// most AutoAdvanceMax advances and AutoAdvanceBudget of simulated time per
-	// call. A library that keeps re-arming a timer (a periodic log line, a poll
-	// loop) must not keep the workload from ever seeing a quiescent point: then
-	// Run reports quiescence with the timers still pending, and the next call
-	// serves them again.
-	advN, advT := 0, time.Duration(0)
+	// Library timers are served, however far away (a one-minute grace period
+	// must expire like a one-millisecond one), but at most AutoAdvanceMax times
+	// per call: a library that keeps re-arming a timer (a periodic log line, a
+	// poll loop) must not keep the workload from ever seeing a quiescent point.
+	// Then Run reports quiescence with the timers still pending, and the next
+	// call serves them again.
+	advN := 0
 	for {
 		synctest.Wait()
 		if s.PanicMsg != "" {
@@ -563,9 +563,8 @@ func (s *Sim) Run() Outcome {
 		if len(en) == 0 {
 			// nothing can run: if the library itself is waiting on a timer, move
 			// the fake clock to the earliest one and look again
-			if d, ok := s.nextTimer(); ok && advN < AutoAdvanceMax && advT+d <= AutoAdvanceBudget {
+			if d, ok := s.nextTimer(); ok && advN < AutoAdvanceMax {
 				advN++
-				advT += d
 				time.Sleep(d)
 				s.SimTime += d
 				s.AutoAdvances++
@@ -755,11 +754,8 @@ func (s *Sim) RecentSites(n int) string {
 	return strings.Join(out, " ")
 }
 
-// Limits of the automatic clock advance to library timers, per Run call.
-var (
-	AutoAdvanceMax    = 40
-	AutoAdvanceBudget = 30 * time.Second
-)
+// Limit of the automatic clock advance to library timers, per Run call.
+var AutoAdvanceMax = 40
 
 // Timers and tickers of instrumented code: created on the bubble's fake clock
 // as usual, and made known to the scheduler so that it moves the clock to them
@@ -914,4 +910,30 @@ func TimeAfterFuncV(d time.Duration, f func()) *time.Timer {
 }
 func ContextAfterFuncV(ctx context.Context, f func()) func() bool {
 	return ContextAfterFunc("value:afterfunc", ctx, f)
+}
+
+// OnceFunc, OnceValue and OnceValues replace their sync counterparts: the
+// sync.Once inside is one the simulator sees (OnceDo).
+func OnceFunc(f func()) func() {
+	var o sync.Once
+	return func() { OnceDo("oncefunc", &o, f) }
+}
+
+func OnceValue[T any](f func() T) func() T {
+	var o sync.Once
+	var v T
+	return func() T {
+		OnceDo("oncevalue", &o, func() { v = f() })
+		return v
+	}
+}
+
+func OnceValues[T1, T2 any](f func() (T1, T2)) func() (T1, T2) {
+	var o sync.Once
+	var v1 T1
+	var v2 T2
+	return func() (T1, T2) {
+		OnceDo("oncevalues", &o, func() { v1, v2 = f() })
+		return v1, v2
+	}
 }
